@@ -134,6 +134,7 @@ pub const BLOCKS: &[(u32, u32)] = &[
     (0x600, 0x6ff),     // Arabic
     (0x900, 0x97f),     // Devanagari
     (0xe00, 0xe7f),     // Thai (no spaces between words)
+    (0x1000, 0x10ff),   // Myanmar, Georgian (just below the crude-width cutoff U+1100; UTF-8 lead byte 0xE1)
     (0x1100, 0x11ff),   // Hangul jamo
     (0x2000, 0x206f),   // general punctuation (spaces, ZWSP, joiners, hyphens, line/paragraph separators)
     (0x20a0, 0x20bf),   // currency
